@@ -16,4 +16,8 @@ CLAIMED["C17"] = {
   "text": "The whole VerifyIndex (stat, worker goroutines, errgroup, batching feeder, fileSeedSegment.Validate) is executed symbolically over a model file system: for symbolic file contents and an independently damaged ID per chunk z3 shows result==nil iff length matches and every chunk hashes to its ID, for every explored goroutine schedule; for larger chunk counts a single damaged chunk at a symbolic position is always noticed, so the batching visits every chunk.",
   "note": "Bounds: all-positions harness K<=3 chunks (thorough 5) x n in {1,2} workers x file length K-1/K/K+1, preemption bound 1 (thorough 2); batching harness (K,n) in {(10..12,1),(19..21,1),(20,2),(21,2),(23,2)} quick, K=6..44 with n=1, selected K with n=2,3,8 and K in {100,119,120,130} thorough, one damaged position symbolic, no forced preemption. Chunks are 1 byte. Block devices (length check skipped by design) are out. Trusted: engine incl. model FS and scheduler, z3, collision-free hash abstraction.",
 }
+CLAIMED["C09"] = {
+  "text": "NewIndexReadSeeker/IndexPos.Seek/Read/findOffset/loadChunk and the FUSE handle's read method are executed symbolically over blobs with symbolic contents and solver-chosen chunk sizes: after Seek(start, p0) and a Read, one (thorough: two) further arbitrary Seek (symbolic 64-bit offset, any whence) or Read is checked against the blob: returned bytes equal blob[pos:pos+n], (0,nil) only for empty buffers, EOF only at the end, failed seeks leave the cursor, store errors surface as errors; the FUSE read returns min(len, Length-off) correct bytes; the empty blob works.",
+  "note": "Bounds: 1-2 chunks (thorough 3) of 1-2 bytes, ChunkSizeMax 2 (so all-zero max-size chunks take the null-chunk shortcut when the solver makes the data zero), 3 operations (thorough 4), read buffers 0-3 bytes, FUSE: 2 reads of 0-4 bytes at symbolic offsets inside the blob; store faults at GetChunk call 0 or 1. go-fuse's bridge and the kernel are not encoded. Trusted: engine, z3, collision-free hash abstraction, in-harness stub store.",
+}
 NA = {}
